@@ -12,15 +12,16 @@ if c.replay:
     ec.replay_one(c, binp)
 
 fams = [
-    # many distinct keys, several rows per batch, immediate read-back after every acknowledgement
-    dict(name='measure-batches', series=[1, 2, 3], times=[1, 2], versions=[1], versioned=True, maxrows=3, maxtotal=6,
-         maxops=4 if c.quick else 5, graphops=0, sims=200 if c.quick else 1500, simops=8),
-    dict(name='measure-batches-maint', series=[1, 2], times=[1, 2, 3], versions=[1, 2], versioned=True, maxrows=2, maxtotal=6,
-         maxops=4 if c.quick else 5, graphops=0, sims=100 if c.quick else 800, simops=10),
+    # TLC exhaustive on small constants; -simulate on larger ones (several rows per batch, many distinct keys):
+    # immediate read-back after every acknowledgement and after every later step
+    dict(name='measure-batches', series=[1, 2], times=[1, 2], versions=[1], versioned=True, maxrows=2, maxtotal=4, maxops=4 if c.quick else 6,
+         graphops=0, sims=200 if c.quick else 1500, simops=8, sim=dict(series=[1, 2, 3], times=[1, 2, 3], maxrows=3, maxtotal=9)),
+    dict(name='measure-batches-maint', series=[1, 2], times=[1, 2], versions=[1, 2], versioned=True, maxrows=2, maxtotal=4, maxops=5 if c.quick else 7,
+         graphops=0, sims=100 if c.quick else 800, simops=10, sim=dict(times=[1, 2, 3], maxtotal=6)),
 ]
 if not c.quick:
-    fams.append(dict(name='measure-big-blocks', series=[1, 2], times=[1, 2, 3], versions=[1], versioned=True, maxrows=3, maxtotal=9,
-                     maxops=4, graphops=0, sims=60, simops=10, big=True))
+    fams.append(dict(name='measure-big-blocks', series=[1, 2], times=[1, 2], versions=[1], versioned=True, maxrows=2, maxtotal=4,
+                     maxops=4, graphops=0, sims=60, simops=10, big=True, sim=dict(times=[1, 2, 3], maxrows=3, maxtotal=9)))
 tot, stats, samples, nontriv, cover = ec.run_families(c, fams, binp, lambda st: sum(1 for x in st[1:] if x['last'].get('op') == 'write') >= 2)
 c.cov.update(states=tot['states'], transitions=tot['transitions'], traces_validated_against_impl=0,
              behaviours_replayed=tot['behaviours'], steps_replayed=tot['steps'], simulated_behaviours=tot['sims'],
